@@ -1209,6 +1209,52 @@ fn stress_race(d: &Driver, threads: usize, secs: u64) -> Value {
     json!({"threads": threads, "seconds": secs, "requests_completed": done.load(Ordering::Relaxed), "blocks_mined": mined.load(Ordering::Relaxed), "read_requests": reads.len(), "stalled": !stuck.is_empty(), "stuck_requests": stuck})
 }
 
+/// C10, reads carrying Bitcoin-transaction overrides: a history with a forged override (for a transaction the
+/// node knows differently) sent through eth_callMany must leave a later REAL transaction that looks the same
+/// previous output up untouched. Uses this module's stand-in Bitcoin node. Returns implementation failures.
+pub fn c10_btc_override_scenario() -> Vec<Value> {
+    let mut fails = vec![];
+    let z32 = format!("0x{}", "00".repeat(32));
+    let pre = |n: u8| format!("0x{:040x}", n);
+    let ts = 1_700_000_000u64;
+    let call_data = abi_txid_call("getTxDetails(bytes32)", &txid_of("aa"), &[]);
+    // a forged version of transaction bb.. (the node's has one output of 1000 sat to script 0x51)
+    let forged = { let mut b: Vec<u8> = vec![2, 0, 0, 0, 1]; b.extend([0u8; 32]); b.extend([0xff; 4]); b.push(0); b.extend([0xff; 4]); b.push(1);
+                   b.extend(2_100_000_000_000_000u64.to_le_bytes()); b.extend([1, 0x52]); b.extend([0, 0, 0, 0]); hex::encode(b) };
+    let mut outputs: Vec<(bool, Value)> = vec![];
+    for with_read in [false, true, false] {
+        let mut d = match Driver::new(None) { Ok(d) => d, Err(e) => { fails.push(json!({"what": format!("c10: harness setup: the driver could not be started: {}", e), "case": {}})); continue; } };
+        let (o, v) = d.quiet("brc20_initialise", json!({"genesis_hash": z32, "genesis_timestamp": ts, "genesis_height": 0}));
+        // (the stand-in node does not answer the status probe: genesis is created all the same)
+        if o != "ok" && !v.to_string().contains("Bitcoin RPC status check failed") { fails.push(json!({"what": format!("c10: harness setup: brc20_initialise answered {} {}", o, v), "case": {}})); continue; }
+        let _ = d.quiet("brc20_mine", json!([2, ts + 1]));
+        if with_read {
+            let pdata = json!({"opReturnTxIds": [], "bitcoinTxHexes": {format!("0x{}", txid_of("bb")): format!("0x{}", forged)}});
+            let _ = d.quiet("eth_callMany", json!([[{"to": pre(0xfd), "data": call_data}], "latest", pdata.clone()]));
+            let _ = d.quiet("eth_estimateGasMany", json!([[{"to": pre(0xfd), "data": call_data}], "latest", pdata]));
+        }
+        let (o, r) = d.quiet("brc20_call", json!({"from_pkscript": PK, "contract_address": pre(0xfd), "contract_inscription_id": null, "data": call_data, "base64_data": null,
+            "timestamp": ts + 2, "hash": z32, "tx_idx": 0, "inscription_id": "c10btci0", "inscription_byte_len": 5000, "op_return_tx_id": z32}));
+        if o != "ok" { fails.push(json!({"what": "c10: the real transaction calling BTC_getTxDetails was not accepted", "case": {"answer": r, "with_read": with_read}})); continue; }
+        let txh = r["transactionHash"].clone();
+        let _ = d.quiet("brc20_finaliseBlock", json!({"timestamp": ts + 2, "hash": z32, "block_tx_count": 1}));
+        let (_, tr) = d.quiet("debug_traceTransaction", json!([txh]));
+        outputs.push((with_read, json!({"status": r["status"], "gasUsed": r["gasUsed"], "output": tr["output"]})));
+    }
+    if outputs.len() != 3 || outputs.iter().any(|(_, o)| o["status"] != json!("0x1") || o["output"].as_str().map(|x| x.len() < 66).unwrap_or(true)) {
+        fails.push(json!({"what": "c10: the Bitcoin-override scenario could not be run as scripted (setup problem of the harness, not a verdict on the property)", "case": {"outputs": outputs.iter().map(|(w, o)| json!([w, o])).collect::<Vec<_>>()}}));
+    }
+    if let Some((_, base)) = outputs.iter().find(|(w, _)| !*w).cloned() {
+        for (w, o) in &outputs {
+            if *o != base {
+                fails.push(json!({"what": format!("c10: a real transaction that looks a Bitcoin transaction up answers differently {} a read request carried a forged override for its previous transaction (reads leave no trace, also not in process-wide caches)", if *w { "after" } else { "in a later history, once" }),
+                    "case": {"without_read": base, "this_run": o, "run_had_the_read": w, "forged_override_for": txid_of("bb")}}));
+            }
+        }
+    }
+    fails
+}
+
 // =========================================================================================
 
 pub fn run(out: &Path, seed: u64, thorough: bool) -> R<()> {
